@@ -253,6 +253,13 @@ static std::vector<Obj> buildPool(PoolStats& st, int level) {
       for (int o = 0; o < 3; ++o)
         admit("(" + x->name + "#T1 " + OPN[o] + " " + y->name + "#T4)", a.Boolean(b, OPS[o]));
     }
+  // (2b) unions of bounding-box-disjoint parts that still carry an unapplied rotation: evaluated by Compose, which starts
+  // from conservative boxes of the lazily transformed children - the measured box must be the tight one all the same
+  for (auto x : bs)
+    for (auto y : bs) {
+      if ((x - bs.front() + y - bs.front()) % 3 != 0 && level < 2) continue;  // quick: a third of the ordered pairs
+      admit("(" + x->name + "#T1 + " + y->name + "#T4.far)", rigid(x->make(), 1) + rigid(y->make(), 4).Translate({9, 0.5, -0.25}));
+    }
   // (3) depth-1 unary results of every seed, then one rigid motion
   struct U {
     const char* name;
